@@ -9,7 +9,7 @@
 -/
 import PyGqlModel.ExecOp
 
-namespace PyGql.Exec
+namespace PyGql.AsyncExec
 
 mutual
 def denComp : Comp → Option V
@@ -39,4 +39,4 @@ def denOut : ROut → Option V
   | .exc => none
 end
 
-end PyGql.Exec
+end PyGql.AsyncExec
